@@ -516,3 +516,42 @@ Proof.
   exists ref, (sv_normalize_with c ref). split; [reflexivity|]. split; [exact R|].
   apply sv_normalize_with_spec. apply wf_chart_pos. exact W.
 Qed.
+
+(* ------------------------------------------------------------------ D. scroll_speed: small-scope result (PARTIAL)
+   FULL STATEMENT (not proved for all inputs):
+     forall c ref, wf_chart c = true -> 0 < ref ->
+       exists o, scroll_speed_with c ref = Some o /\ scroll_ok 0 c ref o.
+   What is proved: the statement for EVERY chart of the small scope below (all row orders of <= 3 tempo rows on
+   times {0,1,2} with bpms {1,2}; no SV list, or all sequences of <= 2 SV rows on times {-1..3} with multipliers
+   {2, 1/2} -- so SVs before the first tempo point, at tempo points, coinciding with each other, after the last
+   note; four note sets), reference 3, by evaluation of the proven-sound oracle on the model's output.
+   Missing: the induction over sort/ffill/bfill/groupby-last/merge for arbitrary charts.  Beyond the small scope
+   the statement rests on the correspondence run + oracle on the implementation's outputs. *)
+Fixpoint seqs_upto {A} (opts : list A) (n : nat) : list (list A) :=
+  match n with
+  | O => [[]]
+  | S n' => [] :: flat_map (fun x => map (cons x) (seqs_upto opts n')) opts
+  end.
+Definition pairs (ts vs : list Q) : list (Q * Q) := flat_map (fun t => map (fun v => (t, v)) vs) ts.
+Definition small_tempos : list (list (Q * Q)) := seqs_upto (pairs [0; 1; 2] [1; 2]) 3.
+Definition small_svs : list (option (list (Q * Q))) :=
+  None :: map Some (seqs_upto (pairs [-1; 0; 1; 2; 3] [2; 1 # 2]) 2).
+Definition small_notes : list (list Q) := [[0]; [2]; [3; 1]; [1]].
+Definition forall_small (p : chart -> bool) : bool :=
+  forallb (fun b => forallb (fun s => forallb (fun n => p (mkChart b s n)) small_notes) small_svs) small_tempos.
+Definition scroll_check (ref : Q) (c : chart) : bool :=
+  negb (wf_chart c) || match scroll_speed_with c ref with Some o => scroll_okb 0 c ref o | None => false end.
+
+Lemma scroll_small_scope_computed : forall_small (scroll_check 3) = true.
+Proof. vm_compute. reflexivity. Qed.
+
+Theorem scroll_speed_spec_partial b s n :
+  In b small_tempos -> In s small_svs -> In n small_notes -> wf_chart (mkChart b s n) = true ->
+  exists o, scroll_speed_with (mkChart b s n) 3 = Some o /\ scroll_ok 0 (mkChart b s n) 3 o.
+Proof.
+  intros Hb Hs Hn W. pose proof scroll_small_scope_computed as H. unfold forall_small in H.
+  rewrite forallb_forall in H. specialize (H b Hb). rewrite forallb_forall in H. specialize (H s Hs).
+  rewrite forallb_forall in H. specialize (H n Hn). unfold scroll_check in H. rewrite W in H. cbn [negb orb] in H.
+  destruct (scroll_speed_with (mkChart b s n) 3) as [o|]; [|discriminate].
+  exists o. split; [reflexivity|]. apply scroll_okb_sound. exact H.
+Qed.
